@@ -1,9 +1,10 @@
 (* Extraction of the renaming validator (ExtrOcamlBasic only). *)
 Require Extraction.
 Require Import ExtrOcamlBasic.
-From Quiver Require Import vm.Remap.
+From Quiver Require Import vm.Remap vm.RemapShake vm.RemapMerge.
 Extraction Language OCaml.
 Extraction "extracted/remap_model.ml"
   is_renaming chk_fun chk_const chk_tuple chk_type chk_builtin chk_res chk_row canon_ok maps_to
   forall_map instr_ok ren_instr ren_type rows_commute row_of project emit_cached emit_inputs emit_injected
-  xrun run istype_verdict equal_verdict init_state.
+  xrun run istype_verdict equal_verdict init_state struct_ok rows_ok rows_dumped instr_img
+  tree_shake shake_rho shake_marks wf_program loaded merge merge_premises backward_refs no_process.
